@@ -6,6 +6,7 @@ import (
 	"bufio"
 	"bytes"
 	"encoding/base64"
+	"encoding/json"
 	"fmt"
 	"io/ioutil"
 	"math"
@@ -608,88 +609,129 @@ func TestVerifC19Binary(t *testing.T) {
 }
 
 // c19JournalBinary: a broker process started with -ip-count-log (50 ms chunks,
-// known key) receives proxy polls from K distinct 127.0.0.0/8 source addresses
-// with repetitions, in two bursts separated by more than the chunk interval; a
-// final poll from one more address makes the writer flush what came before.
-// The journal file written by the process, read back with the exported
-// ClusterCounter over a window containing all chunks, must estimate exactly K
-// distinct addresses (small sets are exact) and must not contain address text.
+// known key) receives proxy polls from distinct 127.0.0.0/8 source addresses in
+// two phases A and B (B repeats some addresses of A). Ordering is by causality,
+// not by clock: phase B starts only after /debug of the process shows every
+// poll of phase A registered (the address is recorded before registration), and
+// the instant tMid is taken in between; the writer cuts chunks lazily, so every
+// chunk that starts after tMid holds phase-B addresses only. A final poll from
+// one more address makes the writer flush what came before. The journal file
+// written by the process, read back with the exported ClusterCounter, must
+// estimate |A u B| over a window containing all chunks and |B| over the window
+// starting at the first chunk cut after tMid (small sets are exact), and must
+// not contain address text.
 func c19JournalBinary(res *vlib.Result, r *vlib.Rand, id int) {
 	name := fmt.Sprintf("journal-binary/%d", id)
 	b := newVBrokerBinary(id, nil, "", "", vBinOpts{IPCount: true})
 	b.bin.abandonOK = true // the idle polls (10 s each) are not waited for
 	defer b.stop(res, "C19")
 	t0 := time.Now().Add(-time.Hour)
-	k := r.PickInt([]int{1, 2, 3, 7, 8, 9, 20, 40})
-	addrs := map[string]bool{}
-	var list []string
-	for len(list) < k {
-		a := fmt.Sprintf("127.%d.%d.%d", 1+r.Intn(200), r.Intn(250), 2+r.Intn(250))
-		if !addrs[a] {
-			addrs[a] = true
-			list = append(list, a)
+	ka := r.PickInt([]int{1, 2, 3, 7, 8, 9, 20})
+	kb := r.PickInt([]int{1, 2, 5, 8, 16})
+	used := map[string]bool{}
+	fresh := func() string {
+		for {
+			a := fmt.Sprintf("127.%d.%d.%d", 1+r.Intn(200), r.Intn(250), 2+r.Intn(250))
+			if !used[a] {
+				used[a] = true
+				return a
+			}
 		}
 	}
+	var setA, setB []string
+	for i := 0; i < ka; i++ {
+		setA = append(setA, fresh())
+	}
+	inB := map[string]bool{}
+	for i := 0; i < kb; i++ {
+		var a string
+		if r.Bool() {
+			a = setA[r.Intn(len(setA))] // seen before, in an earlier chunk
+		} else {
+			a = fresh()
+		}
+		if !inB[a] {
+			inB[a] = true
+			setB = append(setB, a)
+		}
+	}
+	union := map[string]bool{}
+	for _, a := range setA {
+		union[a] = true
+	}
+	for _, a := range setB {
+		union[a] = true
+	}
+	sent := 0
 	fire := func(a string, n int) {
 		for j := 0; j < n; j++ {
-			sid := fmt.Sprintf("j%d-%s-%d-%x", id, a, j, r.Uint64())
+			sid := fmt.Sprintf("j%d-%s-%d-%x", id, a, sent, r.Uint64())
 			ps := &pollSpec{Sid: sid, Type: r.PickString(typeChoices), NAT: r.PickString(natChoices), Remote: a + ":1"}
+			sent++
 			go b.poll(ps) // the poll itself waits up to 10 s for a client; the address is recorded on arrival
 		}
 	}
-	half := (k + 1) / 2
-	for _, a := range list[:half] {
-		fire(a, r.Range(1, 3))
-	}
-	time.Sleep(150 * time.Millisecond)
-	for _, a := range list[half:] {
-		fire(a, r.Range(1, 3))
-	}
-	if r.Bool() && k > 1 {
-		fire(list[0], 1) // a repetition across chunks
-	}
-	time.Sleep(400 * time.Millisecond)
-	flusher := "127.250.250.250"
-	go b.poll(&pollSpec{Sid: fmt.Sprintf("j%d-flusher", id), Type: "standalone", NAT: NATUnknown, Remote: flusher + ":1"})
-	jpath := filepath.Join(b.bin.dir, "ipcount.log")
-	var data []byte
-	ok := waitUntil(10*time.Second, func() bool {
-		d, err := ioutil.ReadFile(jpath)
-		if err != nil || len(d) == 0 || d[len(d)-1] != '\n' {
-			return false
-		}
-		// every address of the last burst must have been handled: the flusher's chunk
-		// line appears only after them (one goroutine per connection, so wait until the
-		// file stopped growing for 300 ms)
-		time.Sleep(300 * time.Millisecond)
-		d2, _ := ioutil.ReadFile(jpath)
-		data = d2
-		return len(d2) == len(d)
-	})
-	rec := map[string]interface{}{"case": name, "distinct_addresses": k, "addresses": list}
+	rec := map[string]interface{}{"case": name, "phase_a": setA, "phase_b": setB, "distinct_union": len(union)}
 	res.Eval(1)
-	if !ok {
-		res.Inconcl(name + ": the broker process wrote no journal chunk within 10 s")
+	for _, a := range setA {
+		fire(a, r.Range(1, 3))
+	}
+	if !waitUntil(8*time.Second, func() bool { return b.debugAvailable() == sent }) {
+		res.Inconcl(name + ": phase A polls did not register within 8 s")
 		return
 	}
-	cnt, err := sinkcluster.NewClusterCounter(t0, time.Now().Add(time.Hour)).Count(bytes.NewReader(data))
-	if err != nil {
-		res.Violatef("journal:binary:unreadable", rec, "%s: the journal written by the broker process cannot be counted: %v", name, err)
+	tMid := time.Now()
+	time.Sleep(120 * time.Millisecond)
+	for _, a := range setB {
+		fire(a, r.Range(1, 2))
+	}
+	if !waitUntil(8*time.Second, func() bool { return b.debugAvailable() == sent }) {
+		res.Inconcl(name + ": phase B polls did not register within 8 s")
 		return
 	}
-	rec["chunks"] = cnt.ChunkIncluded
-	rec["estimate"] = cnt.Sum
-	res.Obs("journal_binary_chunks", cnt.ChunkIncluded)
-	for _, a := range append(list, flusher) {
+	time.Sleep(120 * time.Millisecond)
+	flusher := "127.250.250.250"
+	sent++
+	go b.poll(&pollSpec{Sid: fmt.Sprintf("j%d-flusher", id), Type: "standalone", NAT: NATUnknown, Remote: flusher + ":1"})
+	if !waitUntil(8*time.Second, func() bool { return b.debugAvailable() == sent }) {
+		res.Inconcl(name + ": the flushing poll did not register within 8 s")
+		return
+	}
+	jpath := filepath.Join(b.bin.dir, "ipcount.log")
+	data, err := ioutil.ReadFile(jpath)
+	if err != nil || len(data) == 0 {
+		res.Violatef("journal:binary:not-written", rec, "%s: the broker process wrote no journal although %d polls arrived over %d chunk intervals", name, sent, 5)
+		return
+	}
+	for a := range used {
 		if bytes.Contains(data, []byte(a)) {
 			res.Violatef("journal:binary:address-in-clear", rec, "%s: the journal contains the address text %q", name, a)
 		}
 	}
-	if int(cnt.Sum) != k {
-		// exclude the (rare, deterministic) case where the sketch itself cannot tell the
+	// first chunk cut after tMid
+	var startB time.Time
+	for _, ln := range bytes.Split(data, []byte("\n")) {
+		var e sinkcluster.SinkEntry
+		if len(ln) == 0 || json.Unmarshal(ln, &e) != nil {
+			continue
+		}
+		if e.RecordingStart.After(tMid) && (startB.IsZero() || e.RecordingStart.Before(startB)) {
+			startB = e.RecordingStart
+		}
+	}
+	far := time.Now().Add(time.Hour)
+	all, err := sinkcluster.NewClusterCounter(t0, far).Count(bytes.NewReader(data))
+	if err != nil {
+		res.Violatef("journal:binary:unreadable", rec, "%s: the journal written by the broker process cannot be counted: %v", name, err)
+		return
+	}
+	rec["chunks"] = all.ChunkIncluded
+	res.Obs("journal_binary_chunks", all.ChunkIncluded)
+	exact := func(addrs []string, want int) bool {
+		// the (rare, deterministic) case where the sketch itself cannot tell the
 		// addresses apart: the same set fed into a fresh sink with the same key
 		ref := ipsetsink.NewIPSetSink("verif-key")
-		for _, a := range list {
+		for _, a := range addrs {
 			ref.AddIPToSet(a)
 		}
 		dump, _ := ref.Dump()
@@ -698,15 +740,41 @@ func c19JournalBinary(res *vlib.Result, r *vlib.Rand, id int) {
 		buf.WriteString(base64.StdEncoding.EncodeToString(dump))
 		buf.WriteString("\"}\n")
 		rc, rerr := sinkcluster.NewClusterCounter(time.Time{}, time.Now()).Count(&buf)
-		if rerr == nil && int(rc.Sum) != k {
+		return rerr == nil && int(rc.Sum) == want
+	}
+	var unionList []string
+	for a := range union {
+		unionList = append(unionList, a)
+	}
+	okAll, okB := true, true
+	if int(all.Sum) != len(union) {
+		if !exact(unionList, len(union)) {
 			res.Obs("journal_binary_cases_with_sketch_collision", 1)
 			return
 		}
-		res.Violatef("journal:binary:estimate-differs-from-distinct-addresses", rec, "%s: %d distinct source addresses polled the broker process; its journal (%d chunks) is counted as %d", name, k, cnt.ChunkIncluded, cnt.Sum)
+		okAll = false
+		rec["estimate_all"] = all.Sum
+		res.Violatef("journal:binary:estimate-differs-from-distinct-addresses", rec, "%s: %d distinct source addresses polled the broker process; its journal (%d chunks) is counted as %d", name, len(union), all.ChunkIncluded, all.Sum)
+	}
+	if startB.IsZero() {
+		res.Violatef("journal:binary:no-chunk-after-phase-a", rec, "%s: no chunk starts after phase A although phase B and the flushing poll came more than two chunk intervals later", name)
 		return
 	}
-	res.Obs("journal_binary_cases_exact", 1)
-	res.Distinct(name)
+	wb, err := sinkcluster.NewClusterCounter(startB, far).Count(bytes.NewReader(data))
+	if err == nil && int(wb.Sum) != len(setB) {
+		if !exact(setB, len(setB)) {
+			res.Obs("journal_binary_cases_with_sketch_collision", 1)
+			return
+		}
+		okB = false
+		rec["estimate_phase_b_window"] = wb.Sum
+		rec["chunks_in_phase_b_window"] = wb.ChunkIncluded
+		res.Violatef("journal:binary:window-estimate-differs:address-seen-in-earlier-chunk", rec, "%s: %d distinct addresses polled during the chunks after phase A (some of them had also polled in phase A); the journal counts %d for that window (%d chunks)", name, len(setB), wb.Sum, wb.ChunkIncluded)
+	}
+	if okAll && okB {
+		res.Obs("journal_binary_cases_exact", 1)
+		res.Distinct(name)
+	}
 	if id%7 == 0 {
 		res.Sample(1, rec)
 	}
